@@ -32,6 +32,8 @@ func checkC09(R *Run) {
 	R.ruleDeclaredSizeCopy()
 	R.ruleResumeOffsetReply()
 	R.floor("resume-offset-reply", 2)
+	R.rulePartialPreserved()
+	R.ruleReceiveErrors()
 }
 
 func checkC10(R *Run) {
